@@ -59,6 +59,10 @@ theorem Done.mono {s s' : VS α} {j : Nat} (h : Done C s j) (m : Mono s s') : Do
 
 def Evaluable (j : Nat) : Prop := ∃ v, C.g j (D C f) = .ok v
 
+/-- an exception of class `e` has a cause: some formula raises, and `e` is its class or the class it has after
+    travelling through a dependant -/
+def Raises (e : Fail) : Prop := ∃ j env e', C.g j env = .error e' ∧ (e = e' ∨ e = e'.nested)
+
 variable {C f Bad}
 
 theorem valueOf_eq_D {s : VS α} (hg : Good C f Bad s) {j : Nat} (hd : Done C s j)
@@ -77,6 +81,13 @@ theorem valueOf_eq_D {s : VS α} (hg : Good C f Bad s) {j : Nat} (hd : Done C s 
         · exact h
         · exact absurd h hb
 
+theorem Raises.nested {e : Fail} (h : Raises C e) : Raises C e.nested := by
+  obtain ⟨j, env, e', hj, he⟩ := h
+  refine ⟨j, env, e', hj, .inr ?_⟩
+  rcases he with he | he <;> subst he
+  · rfl
+  · cases e' <;> rfl
+
 theorem seqM_none {σ : Type} (step : Nat → σ → Option Fail × σ) (s : σ) : seqM step [] s = (none, s) := rfl
 
 /-- specification of the evaluator; one induction for everything the loop invariants need -/
@@ -88,7 +99,7 @@ structure EvalSpec (C : Cfg α) (f : Nat → (Nat → α) → α) (Bad : Nat →
   exact : r.1 = none → C.wb.kind i ≠ .input → s.cache i = none →
           (∀ j, j ∈ C.wb.deps i → ¬ Bad j) → r.2.cache i = some (D C f i)
   ok : (∀ m, Reach C.wb i m → Evaluable C f m) → (∀ m, Reach C.wb i m → m ≠ i → ¬ Bad m) → r.1 = none
-  fail : ∀ e, r.1 = some e → ∃ j env, C.g j env = .error e
+  fail : ∀ e, r.1 = some e → Raises C e
 
 structure SeqSpec (C : Cfg α) (f : Nat → (Nat → α) → α) (Bad : Nat → Prop) (l : List Nat)
     (s : VS α) (r : Option Fail × VS α) : Prop where
@@ -96,7 +107,7 @@ structure SeqSpec (C : Cfg α) (f : Nat → (Nat → α) → α) (Bad : Nat → 
   mono : Mono s r.2
   done : r.1 = none → ∀ j, j ∈ l → Done C r.2 j
   ok : (∀ j, j ∈ l → (∀ m, Reach C.wb j m → Evaluable C f m) ∧ (∀ m, Reach C.wb j m → ¬ Bad m)) → r.1 = none
-  fail : ∀ e, r.1 = some e → ∃ j env, C.g j env = .error e
+  fail : ∀ e, r.1 = some e → Raises C e
 
 /-- `seqM` over steps that satisfy `EvalSpec` -/
 theorem seq_spec (step : Nat → VS α → Option Fail × VS α) (ok : Nat → Prop)
@@ -160,7 +171,8 @@ theorem evalX_spec (hwf : WF C.wb) (hl : Local C.wb f) (hlg : LocalG C) (hag : A
           rw [hr] at hs
           cases r1 with
           | some e =>
-            refine ⟨hs.good, hs.mono, fun h => (nomatch h), fun h => (nomatch h), ?_, hs.fail⟩
+            refine ⟨hs.good, hs.mono, fun h => (nomatch h), fun h => (nomatch h), ?_,
+              fun e'' he'' => by cases he''; exact (hs.fail e rfl).nested⟩
             intro hev hnb
             have := hs.ok (fun j hj => ⟨fun m hm => hev m (.step hj hm), fun m hm => hnb m (.step hj hm) (by
               have := hm.le hwf; have := hwf.lt i j hj; omega)⟩)
@@ -185,7 +197,7 @@ theorem evalX_spec (hwf : WF C.wb) (hl : Local C.wb f) (hlg : LocalG C) (hag : A
                 cases hgv
               · intro e' he'
                 cases he'
-                exact ⟨i, _, hgv⟩
+                exact ⟨i, _, e, hgv, .inl rfl⟩
             | ok v =>
               have hvD : (∀ j, j ∈ C.wb.deps i → ¬ Bad j) → v = D C f i := by
                 intro hnb
@@ -326,7 +338,7 @@ structure GenSpec (C : Cfg α) (f : Nat → (Nat → α) → α) (Bad : Nat → 
           ∀ v, C.stored m = some v → r.2.cache m = some v
   ok : (∀ m, Reach C.wb a m → Evaluable C f m) →
        (∀ r, Reach C.wb a r → C.wb.kind r = .range → ∀ m, Reach C.wb r m → ¬ Bad m) → r.1 = none
-  fail : ∀ e, r.1 = some e → ∃ j env, C.g j env = .error e
+  fail : ∀ e, r.1 = some e → Raises C e
 
 /-- the stored results agree with the formulas, except possibly at tainted nodes -/
 def StoredAgree (C : Cfg α) (f : Nat → (Nat → α) → α) (Bad : Nat → Prop) : Prop :=
